@@ -169,7 +169,7 @@ var readOps = []string{
 	"field.ary.fixedlen", "field.optiondecoder",
 	"field.fixed", "field.var", "field.string", "field.bytes", "field.bitset", "field.fixedbitset", "field.plugin",
 	"field.nbt", "field.option", "field.opt", "field.ary", "field.tuple", "field.signature", "rcon.readpacket",
-	"field.chat",
+	"field.chat", "field.packedsignature",
 }
 
 func rconFrame(id, typ int32, payload string) []byte {
@@ -711,6 +711,20 @@ func genReadCase(tp *tape.Tape, op string) *readCase {
 			var v sign.Signature
 			n, err := v.ReadFrom(r)
 			return v, n, err
+		}
+	case "field.packedsignature":
+		// id (VarInt) then, for the marker value, the 256 signature bytes. (The
+		// method has a value receiver, so the decoded value is lost to the caller;
+		// byte count, error and stream position are what can be compared.)
+		if tp.Bool(2, 3) {
+			rc.doc = append(frame.PutVarint(nil, -1), gen.Fill(tp, 256, 9, 12)...)
+		} else {
+			rc.doc = frame.PutVarint(nil, int32(tp.Choose(300)))
+		}
+		rc.dec = func(r io.Reader) (any, int64, error) {
+			var v sign.PackedSignature
+			n, err := v.ReadFrom(r)
+			return nil, n, err
 		}
 	case "rcon.readpacket":
 		payload := gen.Fill(tp, tp.Choose(120), 9, 11)
